@@ -67,8 +67,15 @@ func VerifC12Writers(content string, c1, c2 int, k0, k1, k2 int, single bool) in
 		return 4
 	}
 	sofar := ""
-	for _, c := range chunks(content, c1, c2) {
-		n, err := w.Write([]byte(c))
+	for ci, c := range chunks(content, c1, c2) {
+		var n int
+		var err error
+		if ci == 1 {
+			// the middle piece arrives through io.WriteString (which prefers a WriteString method where there is one)
+			n, err = io.WriteString(w, c)
+		} else {
+			n, err = w.Write([]byte(c))
+		}
 		if err != nil || n != len(c) {
 			return 2
 		}
